@@ -63,7 +63,7 @@ def cases(draw, max_n=70):
                 cfg["kw"][key] = min(cfg["kw"][key], draw(st.integers(2, 8)))
         if cfg.get("cls") == "MACD" and cfg["kw"]["fast_period"] >= cfg["kw"]["slow_period"]:
             cfg["kw"]["slow_period"] = cfg["kw"]["fast_period"] + 1
-        members.append({"cfg": cfg, "tf": draw(st.sampled_from(MEMBER_TFS[hx_tf])), "form": draw(st.sampled_from(("object", "dict", "settings")))})
+        members.append({"cfg": cfg, "tf": draw(st.sampled_from(MEMBER_TFS[hx_tf])), "form": draw(st.sampled_from(("object", "dict", "settings"))), "late": draw(st.integers(0, 4)) == 0})
     n = draw(st.integers(0, max_n))
     step = draw(st.sampled_from((60, 60, 150, 300)))
     pattern = draw(st.sampled_from(("regular", "regular", "gappy", "jitter")))
@@ -149,8 +149,14 @@ def run_case(case) -> Result:
         v = raises(exc, "hexital")
         v.kind = "settings-" + v.kind
         return Result([v], False, labels)
+    late = [bool(m.get("late")) for m in case["members"]]
+    if all(late):
+        late[0] = False
     try:
-        hx = Hexital("c08", mk_candles(rows[:pre]), given, **hx_kw)
+        hx = Hexital("c08", mk_candles(rows[:pre]), [g for g, lt in zip(given, late) if not lt], **hx_kw)
+        for g, lt in zip(given, late):
+            if lt:  # registered after construction, through add_indicator
+                hx.add_indicator(g)
     except Exception as exc:
         v = raises(exc, "hexital")
         forms = {m["form"] for m in case["members"]}
@@ -168,9 +174,12 @@ def run_case(case) -> Result:
     viol = []
     members = list(hx.indicators.values())
     hx_names = list(hx.indicators.keys())
+    if any(late):
+        labels = labels + ["late_registration"]
     # duplicates (same name) collapse into one dict entry: compare the survivors by order of first appearance
     seen, pairs = set(), []
-    for m, t in zip(case["members"], twins):
+    order = [i for i, lt in enumerate(late) if not lt] + [i for i, lt in enumerate(late) if lt]
+    for m, t in ((case["members"][i], twins[i]) for i in order):
         eff_name = build_indicator(m["cfg"], **({"timeframe": _tf_norm(m["tf"])} if m["tf"] else {})).name
         if eff_name in seen:
             continue
